@@ -209,3 +209,12 @@ def cached_export_parts(module, nparts=8, env=None, timeout=900, heap="2g"):
             f.write(json.dumps(r, separators=(",", ":")) + "\n")
     os.replace(tmp, path)
     return recs, wall
+
+
+def check_models(specs, timeout=3000):
+    """Run several MC instances concurrently.  specs: list of (module, cfg, workers, heap).  Returns TLCResults in order."""
+    def one(sp):
+        module, cfg, workers, heap = sp
+        return check_model(module, cfg, workers=workers, heap=heap, timeout=timeout)
+    with ThreadPoolExecutor(max_workers=len(specs)) as ex:
+        return list(ex.map(one, specs))
